@@ -135,10 +135,10 @@ def expectedBgProcsReaders : List (String × Bool) := [
 ]
 
 /-- The goroutine start sites.  `parentUses`: selectors of the *spawning* Runner used inside the
-    new goroutine — only the process substitution's error paths (`r.errf` when the FIFO cannot be
-    opened or closed; see the notes). -/
+    new goroutine — none (the process substitution's error paths used `r.errf` until commit f9b9e42,
+    finding C32-procsubst-errf; they now report through the subshell's own `r2.errf`). -/
 def expectedSpawns : List Spawn := [
-  { func := "Runner.fillExpandConfig", form := "go", parentUses := ["r.errf"], captures := ["bg", "ctx", "path", "ps", "r", "r2", "stdout"] },
+  { func := "Runner.fillExpandConfig", form := "go", parentUses := [], captures := ["bg", "ctx", "path", "ps", "r2", "stdout"] },
   { func := "Runner.stmt", form := "go", parentUses := [], captures := ["bg", "ctx", "r2", "st2"] },
   { func := "Runner.cmd", form := "wg.Go", parentUses := [], captures := ["cm", "ctx", "pw", "r2"] },
   { func := "Runner.hdocReader", form := "go", parentUses := [], captures := ["hdoc", "pw"] },
